@@ -161,3 +161,95 @@ fn lite_block_commitment_recomputable() {
         }
     }
 }
+
+/// C09: a block that crosses the wire keeps every header field, its transactions, its re-encoded bytes, its pre-hash and its hash
+#[test]
+fn roundtrip() {
+    let mut rng = Rng::from_env();
+    for round in 0..200 {
+        let mut b = Block::new();
+        b.id = rng.next(); b.timestamp = rng.next(); b.previous_block_hash = rng.arr(); b.creator = rng.arr(); b.merkle_root = rng.arr(); b.signature = rng.arr();
+        b.graveyard = rng.next(); b.treasury = rng.next(); b.total_fees = rng.next(); b.total_fees_new = rng.next(); b.total_fees_atr = rng.next();
+        b.total_fees_cumulative = rng.next(); b.avg_total_fees = rng.next(); b.avg_total_fees_new = rng.next(); b.avg_total_fees_atr = rng.next();
+        b.total_payout_routing = rng.next(); b.total_payout_mining = rng.next(); b.total_payout_treasury = rng.next(); b.total_payout_graveyard = rng.next(); b.total_payout_atr = rng.next();
+        b.avg_payout_routing = rng.next(); b.avg_payout_mining = rng.next(); b.avg_payout_treasury = rng.next(); b.avg_payout_graveyard = rng.next(); b.avg_payout_atr = rng.next();
+        b.avg_fee_per_byte = rng.next(); b.fee_per_byte = rng.next(); b.avg_nolan_rebroadcast_per_block = rng.next(); b.burnfee = rng.next(); b.difficulty = rng.next(); b.previous_block_unpaid = rng.next();
+        let n = rng.below(4) as usize;
+        for i in 0..n {
+            let mut tx = Transaction::default();
+            tx.timestamp = rng.next(); tx.signature = rng.arr(); let dl = rng.below(20) as usize; tx.data = rng.bytes(dl); tx.txs_replacements = 1 + i as u32;
+            let mut s = Slip::default(); s.public_key = rng.arr(); s.amount = rng.next(); s.block_id = rng.next(); tx.from.push(s);
+            let mut o = Slip::default(); o.public_key = rng.arr(); o.amount = rng.next(); tx.to.push(o);
+            b.transactions.push(tx);
+        }
+        for (what, ty) in [("full", BlockType::Full), ("header-only", BlockType::Header)] {
+            let wire = b.serialize_for_net(ty);
+            let d = match Block::deserialize_from_net(&wire) {
+                Ok(d) => d,
+                Err(e) => witness(format!("round {}: the decoder refuses the encoder's own {} block: {:?}", round, what, e)),
+            };
+            let fields = |x: &Block| vec![
+                ("id", x.id), ("timestamp", x.timestamp), ("graveyard", x.graveyard), ("treasury", x.treasury), ("total_fees", x.total_fees), ("total_fees_new", x.total_fees_new),
+                ("total_fees_atr", x.total_fees_atr), ("total_fees_cumulative", x.total_fees_cumulative), ("avg_total_fees", x.avg_total_fees), ("avg_total_fees_new", x.avg_total_fees_new),
+                ("avg_total_fees_atr", x.avg_total_fees_atr), ("total_payout_routing", x.total_payout_routing), ("total_payout_mining", x.total_payout_mining),
+                ("total_payout_treasury", x.total_payout_treasury), ("total_payout_graveyard", x.total_payout_graveyard), ("total_payout_atr", x.total_payout_atr),
+                ("avg_payout_routing", x.avg_payout_routing), ("avg_payout_mining", x.avg_payout_mining), ("avg_payout_treasury", x.avg_payout_treasury),
+                ("avg_payout_graveyard", x.avg_payout_graveyard), ("avg_payout_atr", x.avg_payout_atr), ("avg_fee_per_byte", x.avg_fee_per_byte), ("fee_per_byte", x.fee_per_byte),
+                ("avg_nolan_rebroadcast_per_block", x.avg_nolan_rebroadcast_per_block), ("burnfee", x.burnfee), ("difficulty", x.difficulty), ("previous_block_unpaid", x.previous_block_unpaid)];
+            for ((name, want), (_, got)) in fields(&b).into_iter().zip(fields(&d).into_iter()) {
+                if want != got { witness(format!("round {}: {} block: header field {} is {} before encoding and {} after decoding", round, what, name, want, got)); }
+            }
+            if d.previous_block_hash != b.previous_block_hash || d.creator != b.creator || d.merkle_root != b.merkle_root || d.signature != b.signature {
+                witness(format!("round {}: {} block: parent hash / creator / merkle root / signature changed across the wire", round, what));
+            }
+            if ty == BlockType::Full && d.transactions != b.transactions { witness(format!("round {}: full block: transactions changed across the wire ({} sent)", round, n)); }
+            if d.serialize_for_net(ty) != wire { witness(format!("round {}: {} block: re-encoding the decoded block gives different bytes", round, what)); }
+            if d.serialize_for_signature() != b.serialize_for_signature() { witness(format!("round {}: {} block: the signed bytes (hence pre-hash, hash and signature validity) change across the wire", round, what)); }
+        }
+    }
+}
+
+/// C01: an output is not spent twice inside one block — wherever the spending input sits in its transaction
+/// (also behind the zero-amount input the wallet puts first)
+#[tokio::test]
+#[serial_test::serial]
+async fn double_spend_within_block_rejected() {
+    for lead_a in 0..3usize {
+        for lead_b in 0..3usize {
+            let mut t = TestManager::default();
+            t.initialize(100, 200_000_000_000_000).await;
+            let genesis = t.get_latest_block().await;
+            let (public_key, private_key) = { let w = t.wallet_lock.read().await; (w.public_key, w.private_key) };
+            let owned: Vec<Slip> = genesis.transactions.iter().flat_map(|tx| tx.to.iter()).filter(|s| s.amount > 0 && s.public_key == public_key).cloned().collect();
+            assert!(owned.len() >= 2);
+            let build = |lead: usize, utxo: &Slip, to: u8| {
+                let mut tx = Transaction::default();
+                for _ in 0..lead { tx.add_from_slip(Slip { public_key, amount: 0, ..Default::default() }); }
+                tx.add_from_slip(utxo.clone());
+                tx.add_to_slip(Slip { public_key: [to; 33], amount: utxo.amount, ..Default::default() });
+                tx.generate(&public_key, 0, 0);
+                tx.sign(&private_key);
+                tx
+            };
+            let (a, b, c) = (build(lead_a, &owned[0], 2), build(lead_b, &owned[0], 3), build(lead_b, &owned[1], 3));
+            { let bc = t.blockchain_lock.read().await;
+              assert!(a.validate(&bc.utxoset, &bc, true) && b.validate(&bc.utxoset, &bc, true) && c.validate(&bc.utxoset, &bc, true), "each transaction alone is valid"); }
+            for (txs, double) in [(vec![a.clone(), b.clone()], true), (vec![a.clone(), c.clone()], false)] {
+                let mut block = t.create_block(genesis.hash, genesis.timestamp + 120000, 0, 0, 0, false).await;
+                for tx in txs { block.add_transaction(tx); }
+                block.merkle_root = block.generate_merkle_root(false, false);
+                block.generate().unwrap();
+                block.sign(&private_key);
+                let mut received = Block::deserialize_from_net(&block.serialize_for_net(BlockType::Full)).unwrap();
+                received.generate().unwrap();
+                let bc = t.blockchain_lock.read().await;
+                let configs = t.config_lock.read().await;
+                let accepted = received.validate(&bc, &bc.utxoset, std::ops::Deref::deref(&configs), &t.storage, true).await;
+                if double && accepted {
+                    witness(format!("Block::validate accepts a block whose two transactions spend the same output: the shared input is input #{} of the first and input #{} of the second transaction, behind zero-amount inputs", lead_a, lead_b));
+                }
+                assert!(double || accepted, "control block (two different outputs) must be accepted");
+            }
+        }
+    }
+}
